@@ -263,4 +263,250 @@ theorem RM_route_agrees_bgp (u : Upd) (ql : Large) (qa : Nat) :
 example : (obsRoute ⟨some { Upd.empty with aspath := some [⟨.seq, [1]⟩, ⟨.seq, [2]⟩] }⟩ ⟨1, 1, 1⟩ 2).originIs = true := by
   rw [(RM_route_agrees_bgp _ _ _).2.2.2.2.2]; decide
 
+/-! ## 5. `LogEntry` setters: each writes exactly its field(s), from the message -/
+
+/-- frame: a setter changes no field but its own (`mp_reach` / `mp_unreach` own the count and
+    the AFI/SAFI; `log_all` owns everything but the timestamp and the custom text) -/
+theorem RM_setter_frame (m : Bmp) (e : Entry) :
+    setter m (.custom s) e = { e with custom := (setter m (.custom s) e).custom } ∧
+    setter m .originAs e = { e with originAs := (setter m .originAs e).originAs } ∧
+    setter m .peerAs e = { e with peerAs := (setter m .peerAs e).peerAs } ∧
+    setter m .asPathHops e = { e with asPathHops := (setter m .asPathHops e).asPathHops } ∧
+    setter m .convReach e = { e with convReach := (setter m .convReach e).convReach } ∧
+    setter m .convUnreach e = { e with convUnreach := (setter m .convUnreach e).convUnreach } ∧
+    setter m .mpReach e = { e with mpReach := (setter m .mpReach e).mpReach,
+                                   mpReachFam := (setter m .mpReach e).mpReachFam } ∧
+    setter m .mpUnreach e = { e with mpUnreach := (setter m .mpUnreach e).mpUnreach,
+                                     mpUnreachFam := (setter m .mpUnreach e).mpUnreachFam } ∧
+    (setter m .logAll e).ts = e.ts ∧ (setter m .logAll e).custom = e.custom := by
+  refine ⟨rfl, ?_, ?_, ?_, ?_, ?_, ?_, ?_, ?_, ?_⟩
+  all_goals (simp only [setter, setMpReach, setMpUnreach]; (repeat' split) <;> rfl)
+
+/-- no setter reads or writes the timestamp -/
+def Entry.noTs (e : Entry) : Entry := { e with ts := false }
+
+theorem setter_noTs (m : Bmp) (o : Op) (e : Entry) : (setter m o e).noTs = setter m o e.noTs := by
+  cases o <;> simp only [setter, Entry.noTs, setMpReach, setMpUnreach] <;>
+    (repeat' split) <;> first | rfl | simp_all
+
+/-- what each setter writes for a RouteMonitoring message whose UPDATE parses -/
+theorem RM_setter_values (m : Bmp) (u : Upd) (e : Entry) (hk : m.kind = .routeMon) (hu : m.upd = some u) :
+    (setter m .peerAs e).peerAs = some m.pphAsn ∧
+    (setter m .asPathHops e).asPathHops = u.aspath.map hopCount ∧
+    (setter m .convReach e).convReach = u.reach.length ∧
+    (setter m .convUnreach e).convUnreach = u.unreach.length ∧
+    (setter m .originAs e).originAs = (match u.aspath.bind originAsn with | some a => some a | none => e.originAs) ∧
+    (setter m .mpReach e).mpReach = (match u.mpReach with | some x => some x.nlri.length | none => e.mpReach) ∧
+    (setter m .mpUnreach e).mpUnreach = (match u.mpUnreach with | some x => some x.nlri.length | none => e.mpUnreach) := by
+  refine ⟨?_, ?_, ?_, ?_, ?_, ?_, ?_⟩
+  · simp [setter, hk]
+  · simp [setter, Bmp.view, hk, hu]
+  · simp [setter, Bmp.view, hk, hu]
+  · simp [setter, Bmp.view, hk, hu]
+  · cases h : u.aspath.bind originAsn <;> simp [setter, Bmp.view, hk, hu, h]
+  · cases h : u.mpReach <;> simp [setter, Bmp.view, hk, hu, h, setMpReach]
+  · cases h : u.mpUnreach <;> simp [setter, Bmp.view, hk, hu, h, setMpUnreach]
+
+example : (setter ⟨.routeMon, 65000, some { Upd.empty with aspath := some [⟨.seq, [1, 2]⟩, ⟨.set, [3]⟩] }⟩ .asPathHops Entry.new).asPathHops = some 3 := by decide
+
+/-- `log_all` is all single setters together; on a path whose origin is not an ASN it CLEARS
+    `origin_as` (the single setter leaves it alone) -/
+theorem RM_logAll_values (m : Bmp) (u : Upd) (e : Entry) (hk : m.kind = .routeMon) (hu : m.upd = some u) :
+    (setter m .logAll e).peerAs = some m.pphAsn ∧
+    (setter m .logAll e).convReach = u.reach.length ∧
+    (setter m .logAll e).convUnreach = u.unreach.length ∧
+    (setter m .logAll e).asPathHops = (match u.aspath with | some p => some (hopCount p) | none => e.asPathHops) ∧
+    (setter m .logAll e).originAs = (match u.aspath with | some p => originAsn p | none => e.originAs) ∧
+    (setter m .logAll e).mpReach = (match u.mpReach with | some x => some x.nlri.length | none => e.mpReach) ∧
+    (setter m .logAll e).mpUnreach = (match u.mpUnreach with | some x => some x.nlri.length | none => e.mpUnreach) := by
+  simp only [setter, Bmp.view, hk, hu, setMpReach, setMpUnreach]
+  cases u.aspath <;> cases u.mpReach <;> cases u.mpUnreach <;> simp
+
+/-- the counts `log_all` writes add up to what `announcements_count` / `withdrawals_count` return -/
+theorem RM_logAll_counts_agree (m : Bmp) (u : Upd) (hk : m.kind = .routeMon) (hu : m.upd = some u)
+    (h1 : (announcements u).length ≤ u32Max) (h2 : (withdrawals u).length ≤ u32Max) :
+    (setter m .logAll Entry.new).convReach + ((setter m .logAll Entry.new).mpReach).getD 0 = (obsBmp m ql qa).annCount ∧
+    (setter m .logAll Entry.new).convUnreach + ((setter m .logAll Entry.new).mpUnreach).getD 0 = (obsBmp m ql qa).wdrCount := by
+  have := RM_logAll_values m u Entry.new hk hu
+  obtain ⟨_, h3, h4, _, _, h5, h6⟩ := this
+  rw [h3, h4, h5, h6]
+  simp only [obsBmp, Bmp.view, hk, hu, obsUpd, announcementsCount, withdrawalsCount, sat32, h1, h2, if_true]
+  simp only [announcements, withdrawals, mpNlri, List.length_append]
+  cases u.mpReach <;> cases u.mpUnreach <;> simp [Entry.new, Entry.default] <;> omega
+
+example : (setter ⟨.routeMon, 1, some { Upd.empty with reach := [1], mpReach := some ⟨2, [2, 3]⟩ }⟩ .logAll Entry.new).mpReach = some 2 := by decide
+
+/-- on anything but a RouteMonitoring no `BmpMsg`-reading setter writes anything -/
+theorem RM_setter_neutral (m : Bmp) (o : Op) (e : Entry) (hk : m.kind ≠ .routeMon) (ho : ∀ s, o ≠ .custom s) :
+    setter m o e = e := by
+  cases o <;> simp only [setter, Bmp.view] <;> cases hm : m.kind <;> simp_all
+
+example : setter ⟨.peerDown, 65000, none⟩ .logAll Entry.new = Entry.new := by decide
+
+/-- a RouteMonitoring whose PDU does not parse: only the per-peer header's ASN is written -/
+theorem RM_setter_unparsable (m : Bmp) (o : Op) (e : Entry) (hu : m.upd = none)
+    (ho : ∀ s, o ≠ .custom s) (h1 : o ≠ .peerAs) (h2 : o ≠ .logAll) : setter m o e = e := by
+  cases o <;> simp only [setter, Bmp.view] <;> cases hm : m.kind <;> simp_all
+
+/-! ## 6. What reaches the output stream -/
+
+/-- the documented meaning of a script's calls: `write_entry` emits the entry composed so far and
+    a NEW (empty, freshly stamped) entry follows; `log_custom` emits its pair; setters compose -/
+def specRun (m : Bmp) : List Op → Entry → List Out
+  | [], _ => []
+  | .writeEntry :: r, e => Out.entry e :: specRun m r Entry.new
+  | .logCustom a b :: r, e => Out.custom a b :: specRun m r e
+  | .custom s :: r, e => specRun m r (setter m (.custom s) e)
+  | .originAs :: r, e => specRun m r (setter m .originAs e)
+  | .peerAs :: r, e => specRun m r (setter m .peerAs e)
+  | .asPathHops :: r, e => specRun m r (setter m .asPathHops e)
+  | .convReach :: r, e => specRun m r (setter m .convReach e)
+  | .convUnreach :: r, e => specRun m r (setter m .convUnreach e)
+  | .mpReach :: r, e => specRun m r (setter m .mpReach e)
+  | .mpUnreach :: r, e => specRun m r (setter m .mpUnreach e)
+  | .logAll :: r, e => specRun m r (setter m .logAll e)
+
+/-- the same with the entry that follows a `write_entry` as a parameter -/
+def specRunWith (nxt : Entry) (m : Bmp) : List Op → Entry → List Out
+  | [], _ => []
+  | .writeEntry :: r, e => Out.entry e :: specRunWith nxt m r nxt
+  | .logCustom a b :: r, e => Out.custom a b :: specRunWith nxt m r e
+  | .custom s :: r, e => specRunWith nxt m r (setter m (.custom s) e)
+  | .originAs :: r, e => specRunWith nxt m r (setter m .originAs e)
+  | .peerAs :: r, e => specRunWith nxt m r (setter m .peerAs e)
+  | .asPathHops :: r, e => specRunWith nxt m r (setter m .asPathHops e)
+  | .convReach :: r, e => specRunWith nxt m r (setter m .convReach e)
+  | .convUnreach :: r, e => specRunWith nxt m r (setter m .convUnreach e)
+  | .mpReach :: r, e => specRunWith nxt m r (setter m .mpReach e)
+  | .mpUnreach :: r, e => specRunWith nxt m r (setter m .mpUnreach e)
+  | .logAll :: r, e => specRunWith nxt m r (setter m .logAll e)
+
+theorem specRunWith_new (m : Bmp) (ops : List Op) (e : Entry) : specRunWith Entry.new m ops e = specRun m ops e := by
+  induction ops generalizing e with
+  | nil => rfl
+  | cons o r ih => cases o <;> simp [specRunWith, specRun, ih]
+
+def Variant.next (v : Variant) : Entry := if v.freshTs then Entry.new else Entry.default
+
+/-- the code: outputs are appended in call order, one per `write_entry` / `log_custom` call -/
+theorem run_msgs (v : Variant) (m : Bmp) (ops : List Op) (s : Stream) :
+    (run v m ops s).msgs = s.msgs ++ specRunWith v.next m ops s.entry := by
+  induction ops generalizing s with
+  | nil => simp [run, specRunWith]
+  | cons o r ih =>
+    have hr : run v m (o :: r) s = run v m r (step v m s o) := rfl
+    rw [hr, ih]
+    cases o <;> simp [step, specRunWith, Variant.next]
+
+/-- every output call is emitted exactly once, in call order, whatever else the script does -/
+theorem RM_outputs_once_in_order (v : Variant) (m : Bmp) (ops : List Op) :
+    (runFresh v m ops).map (fun o => match o with | .entry _ => true | .custom _ _ => false) =
+    ops.filterMap (fun o => match o with | .writeEntry => some true | .logCustom _ _ => some false | _ => none) := by
+  unfold runFresh
+  rw [run_msgs]
+  simp only [Stream.new, List.nil_append]
+  generalize Entry.new = e
+  induction ops generalizing e with
+  | nil => rfl
+  | cons o r ih => cases o <;> simp [specRunWith, ih]
+
+example : (runFresh .asWritten noBmp [.writeEntry, .logCustom 1 2, .custom "x", .writeEntry]).length = 3 := by decide
+
+/-- the full statement: the entries that reach the output stream are exactly what the script
+    composed between two `write_entry` calls, each starting from a new, freshly stamped entry -/
+def RM_entries_full (v : Variant) : Prop :=
+  ∀ (m : Bmp) (ops : List Op), runFresh v m ops = specRun m ops Entry.new
+
+theorem RM_entries_repaired (v : Variant) (h : v.freshTs = true) : RM_entries_full v := by
+  intro m ops
+  unfold runFresh
+  rw [run_msgs]
+  simp [Stream.new, Variant.next, h, specRunWith_new]
+
+example : RM_entries_full .repaired := RM_entries_repaired _ rfl
+
+/-- as written it fails: `take_entry` leaves `LogEntry::default()` behind, so the second entry of
+    one filter call carries the Unix epoch as its timestamp -/
+theorem RM_entries_counterexample : ¬ RM_entries_full .asWritten := by
+  intro h
+  have := h ⟨.routeMon, 65000, some Upd.empty⟩ [.logAll, .writeEntry, .peerAs, .writeEntry]
+  revert this
+  decide
+
+/-- … and that is the only thing wrong: modulo the timestamp every emitted entry is exact -/
+def Out.noTs : Out → Out
+  | .entry e => .entry e.noTs
+  | o => o
+
+theorem specRunWith_noTs (n1 n2 : Entry) (hn : n1.noTs = n2.noTs) (m : Bmp) (ops : List Op) (e1 e2 : Entry)
+    (he : e1.noTs = e2.noTs) :
+    (specRunWith n1 m ops e1).map Out.noTs = (specRunWith n2 m ops e2).map Out.noTs := by
+  induction ops generalizing e1 e2 with
+  | nil => rfl
+  | cons o r ih =>
+    cases o <;> simp only [specRunWith, List.map_cons, Out.noTs]
+    case writeEntry => rw [he, ih n1 n2 hn]
+    case logCustom => rw [ih e1 e2 he]
+    all_goals (apply ih; rw [setter_noTs, setter_noTs, he])
+
+theorem RM_entries_partial (v : Variant) (m : Bmp) (ops : List Op) :
+    (runFresh v m ops).map Out.noTs = (specRun m ops Entry.new).map Out.noTs := by
+  unfold runFresh
+  rw [run_msgs, ← specRunWith_new]
+  simp only [Stream.new, List.nil_append]
+  apply specRunWith_noTs
+  · unfold Variant.next; split <;> rfl
+  · rfl
+
+/-- the first entry of a call is right, timestamp included -/
+theorem RM_first_entry_exact (v : Variant) (m : Bmp) (pre post : List Op)
+    (h : ∀ o ∈ pre, o ≠ .writeEntry) :
+    ∃ cs rest, runFresh v m (pre ++ .writeEntry :: post) = cs ++ Out.entry (pre.foldl (fun e o => setter m o e) Entry.new) :: rest
+      ∧ ∀ c ∈ cs, ∃ a b, c = Out.custom a b := by
+  unfold runFresh
+  rw [run_msgs]
+  simp only [Stream.new, List.nil_append]
+  generalize Entry.new = e
+  induction pre generalizing e with
+  | nil => exact ⟨[], specRunWith v.next m post v.next, by simp [specRunWith], by simp⟩
+  | cons o r ih =>
+    have hr := ih (fun o ho => h o (by simp [ho]))
+    have ho : o ≠ .writeEntry := h o (by simp)
+    cases o with
+    | writeEntry => exact absurd rfl ho
+    | logCustom a b =>
+      obtain ⟨cs, rest, h1, h2⟩ := hr e
+      refine ⟨Out.custom a b :: cs, rest, ?_, ?_⟩
+      · simp only [List.cons_append, specRunWith, h1, List.foldl_cons, setter]
+      · intro c hc; rcases List.mem_cons.mp hc with rfl | hc; exact ⟨a, b, rfl⟩; exact h2 c hc
+    | _ => simpa [specRunWith] using hr _
+
+/-! ### rib-in-pre: one stream for all routes of an `Update` -/
+
+/-- the full statement at rib-in-pre: every route is its own filter call -/
+def RM_routes_full (v : Variant) : Prop :=
+  ∀ scripts : List (List Op), runRoutes v scripts = scripts.map fun ops => specRun noBmp ops Entry.new
+
+theorem RM_routes_repaired : RM_routes_full .repaired := by
+  intro scripts
+  simp only [runRoutes, Variant.repaired, if_true]
+  congr 1
+  funext ops
+  exact RM_entries_repaired _ rfl noBmp ops
+
+/-- as written an entry composed for one route and not written is written for a later route of
+    the same `Update` -/
+theorem RM_routes_counterexample : ¬ RM_routes_full .asWritten := by
+  intro h
+  have := h [[.custom "x"], [.writeEntry]]
+  revert this
+  decide
+
+/-- with the per-route stream alone (timestamp defect kept) the routes are still independent calls -/
+theorem RM_routes_perRoute (v : Variant) (h : v.perRoute = true) (scripts : List (List Op)) :
+    runRoutes v scripts = scripts.map (runFresh v noBmp) := by
+  simp [runRoutes, h]
+
+example : runRoutes .asWritten [[.custom "x"], [.writeEntry]] = [[], [.entry { Entry.new with custom := some "x" }]] := by decide
+
 end Rotonda.RotoMethods
